@@ -206,6 +206,8 @@ def install(pe):
     E["copy.deepcopy"] = lambda pe, a, k: _deepcopy(pe, a[0])
     E["copy.copy"] = lambda pe, a, k: _deepcopy(pe, a[0], shallow=True)
     E["dataclasses.asdict"] = lambda pe, a, k: _asdict(pe, a[0])
+    E["dataclasses.fields"] = lambda pe, a, k: _dc_fields(pe, a[0])
+    E["dataclasses.is_dataclass"] = lambda pe, a, k: type(a[0]).__name__ in ("Obj", "ClassRef") and a[0].cls.is_dataclass
     E["dataclasses.replace"] = lambda pe, a, k: _replace(pe, a[0], k)
     E["itertools.product"] = lambda pe, a, k: _product(pe, a, k)
     E["itertools.chain"] = lambda pe, a, k: [x for it in a for x in pe.iterate(it)]
@@ -324,6 +326,8 @@ def _key(pe, x):
         return tuple(_key(pe, e) for e in x)
     if isinstance(x, str):
         return x
+    if type(x).__module__.startswith("pathlib") or any(c.__module__.startswith("pathlib") for c in type(x).__mro__):
+        return str(x)
     r = _as_exact(x)
     if r is None:
         raise Undecidable(f"ordering of symbolic value {dag.short(x)}")
@@ -454,6 +458,14 @@ def _isinstance(pe, x, t):
             return isinstance(x, (int, Fraction, Node, float))
         if q in ("numpy.generic", "numpy.number", "numpy.integer"):
             return False
+        if q in ("enum.Enum", "enum.IntEnum", "enum.StrEnum"):
+            from .pe import _is_enum
+
+            return isinstance(x, Obj) and "_value_" in x.attrs and _is_enum(pe.src, x.cls)
+        if q in ("pathlib.Path", "pathlib.PurePath", "os.PathLike"):
+            import pathlib
+
+            return isinstance(x, pathlib.PurePath)
         if q.startswith("collections.abc.") or q.startswith("typing."):
             nm = q.rsplit(".", 1)[1]
             if nm in ("Sequence", "Iterable", "Collection"):
@@ -1055,3 +1067,15 @@ def builtin_method(pe, obj, name, args, kwargs):
         if name == "copy":
             return obj
     raise PEError(f"method {type(obj).__name__}.{name} not modelled")
+
+
+def _dc_fields(pe, o):
+    """dataclasses.fields(obj or class): objects with .name (and .type as annotation text), ClassVar entries excluded"""
+    from types import SimpleNamespace
+
+    cls = o.cls
+    out = []
+    for name, (owner, default) in pe.all_fields(cls).items():
+        ann = owner.fields()[name][0]
+        out.append(SimpleNamespace(name=name, type=ann, default=default))
+    return out
